@@ -257,7 +257,10 @@ fn run_guarded(job: Job) -> String {
 // child-process probes (cases that abort the process)
 // ------------------------------------------------------------------------------------------
 /// (probe id, mode, script; `@SELF` = path of the script file itself)
-const PROBES: [(&str, &str, &str); 18] = [
+const PROBES: [(&str, &str, &str); 20] = [
+    // controls: deeply nested TEXTS handed to a parser must come back (an error value is fine)
+    ("control-deep-json-text", "text", "x = json_parse @JSONDEEP\ny = json_parse --collection @JSONDEEP\n"),
+    ("control-deep-calc-text-error", "text", "x = calc @HALFPARENS\n"),
     // controls: collections that contain their own handle are released recursively without looping
     ("control-release-self-cycle", "text", "a = array a b\narray_push ${a} ${a}\nx = release -r ${a}\ny = is_array ${a}\nassert_false ${y}\n"),
     ("control-release-two-cycle", "text", "m = map\na = array\narray_push ${a} ${m}\nmap_put ${m} k ${a}\nx = release -r ${a}\n"),
@@ -291,7 +294,9 @@ fn child_binary() -> Option<std::path::PathBuf> {
 fn probe_text(script: &str) -> String {
     let deep = "a = array x\nr = range 0 30000\nfor i in ${r}\n    a = array ${a}\nend\n";
     let parens = format!("{}1{}", "(".repeat(100_000), ")".repeat(100_000));
-    script.replace("@DEEP", deep).replace("@PARENS", &parens)
+    // `@JSONDEEP`: 200 000 nested JSON arrays; `@HALFPARENS`: 300 opening parentheses, none closed
+    let jsondeep = format!("{}1{}", "[".repeat(200_000), "]".repeat(200_000));
+    script.replace("@JSONDEEP", &jsondeep).replace("@HALFPARENS", &"(".repeat(300)).replace("@DEEP", deep).replace("@PARENS", &parens)
 }
 
 fn run_probe(name: &str) -> String {
@@ -628,6 +633,12 @@ impl<'a> Gen<'a> {
                         let t = *self.rng.pick(&["\n", "\r\n", "\t", " ", "\u{3000}", "\n\n", "#c", "", "\u{feff}", "\u{85}"]);
                         return format!("{} {}", cmd, quote(t));
                     }
+                    // block commands reached through the nested evaluator see an EMPTY instruction
+                    // list and line 0
+                    if self.rng.chance(1, 8) {
+                        let t = *self.rng.pick(&["if true", "if false", "while true", "while false", "for x in ${h0}", "fn f9", "function g9 a", "end", "else", "elseif true", "return", "return v", "end_fn", "end_for", "end_while", "goto :nolabel", "std::flowcontrol::If true"]);
+                        return format!("{} {}", cmd, t);
+                    }
                     let inner = if self.rng.chance(1, 6) { self.cond_tokens() } else { self.call(false) };
                     return format!("{} {}", cmd, inner);
                 }
@@ -955,11 +966,19 @@ impl Prop for C07Prop {
             "exit_on_error true\n#NEXT\nx = array_length nope\ny = get_last_error",
             "on_error_probe = set 1\ntrigger_error boom\n#NEXT\nx = get_last_error\ny = get_last_error_line",
         ];
+        let nested_blocks = [
+            "out = eval if true", "alias check if\ncheck true", "alias loop while\nloop false", "alias each for\nh = array a\neach x in ${h}", "alias def fn\ndef f9",
+            "eval end", "eval else", "x = eval return v", "not if true", "not while false", "not fn f9", "eval std::flowcontrol::ForIn x in nohandle",
+        ];
+        for s in nested_blocks {
+            out.push(lib_case(s, &[], vec!["block-command-through-nested-evaluator"]));
+        }
         for s in carry {
             out.push(lib_case(&s.replace("#NEXT", NEXT_RUN), &[], vec!["several-runs-on-one-context"]));
         }
         // systematic sweep: every allow-listed non-flow command with a few argument vectors
-        let vectors: [&[&str]; 15] = [
+        let vectors: [&[&str]; 18] = [
+            &["255", "65534"], &["255", "70000"], &["7", "-1", "18446744073709551615"],
             &["\"\\n\""], &["\"\\t\""], &["\"\u{3000}\""],
             &[], &["\"\""], &["é漢😀"], &["-1"], &["0", "1", "2"], &["${h0}"], &["${h1}", "${h0}"], &["${h2}", "0", "é"],
             &["${gone}"], &["handle:abc", "x"], &["--copy", "nope", "nope"], &["9223372036854775808", "-9223372036854775809"],
@@ -970,7 +989,7 @@ impl Prop for C07Prop {
                 continue;
             }
             for (i, v) in vectors.iter().enumerate() {
-                if SIZE_DRIVEN.contains(&cmd) && i >= 6 && i != 8 {
+                if SIZE_DRIVEN.contains(&cmd) && i >= 9 && i != 11 {
                     continue;
                 }
                 if cmd == "json_encode" && v.first() == Some(&"--collection") {
